@@ -435,9 +435,12 @@ static void mutex_case(seqx::Runner &R) {
 // ------------------------------------------------------------------------------------------------ family F6: callback await on the stack
 // callback_await_alloc<stack_storage, ...>: the frame of the helper coroutine lives in caller-provided (stack) memory once
 // the shared size state has learned the frame size in one warm-up round - "those too disappear under a non-heap policy"
-static void cbawait_stack_case(seqx::Runner &R, int outcome, size_t initial_state) {
+struct Ctx96 {  // what a callback that carries its request context by value holds
+    long words[12];
+};
+static void cbawait_stack_case(seqx::Runner &R, int outcome, size_t initial_state, bool big_closure) {
     std::ostringstream d;
-    d << "F6 callback_await on stack_storage outcome=" << outcome << " initial_state=" << initial_state;
+    d << "F6 callback_await on stack_storage outcome=" << outcome << " initial_state=" << initial_state << (big_closure ? " callback=96-byte-closure" : "");
     if (!R.next_case_named(d.str())) return;
     R.begin(d.str());
     static char buffer[4096];
@@ -456,8 +459,14 @@ static void cbawait_stack_case(seqx::Runner &R, int outcome, size_t initial_stat
                 break;
             }
             storage = buffer;
-            cocls::callback_await_alloc<cocls::stack_storage, cocls::future<int> &>(
-                storage, [&fired](cocls::await_result<int> r) { fired += r ? 1 : 2; }, f);
+            if (big_closure) {
+                Ctx96 ctx{};
+                ctx.words[11] = 1;
+                cocls::callback_await_alloc<cocls::stack_storage, cocls::future<int> &>(
+                    storage, [&fired, ctx](cocls::await_result<int> r) { fired += r ? (int)ctx.words[11] : 2; }, f);
+            } else
+                cocls::callback_await_alloc<cocls::stack_storage, cocls::future<int> &>(
+                    storage, [&fired](cocls::await_result<int> r) { fired += r ? 1 : 2; }, f);
             switch (outcome) {
                 case 0: p(5); break;
                 case 1: p(prebuilt); break;
@@ -552,6 +561,61 @@ static void buffer_store_case(seqx::Runner &R) {
     R.end(true);
 }
 
+// ------------------------------------------------------------------------------------------------ family F10: thread-safe reusable storage
+// reusable_storage_mtsafe: a frame created while the block is taken goes to the heap (charged to the overlap, not judged); once
+// every frame is gone the block is free again and the next frame - and the one after it - must not allocate
+static cocls::with_allocator<cocls::reusable_storage_mtsafe, cocls::async<void>> mts_coro(cocls::reusable_storage_mtsafe &, cocls::future<int> &gate, int *done) {
+    int v = co_await gate;
+    *done += v;
+}
+static void mtsafe_overlap_case(seqx::Runner &R, int finish_order, int with_third) {
+    std::ostringstream d;
+    d << "F10 reusable_storage_mtsafe overlap then sequential finish_order=" << finish_order << " third_overlapping_frame=" << with_third;
+    if (!R.next_case_named(d.str())) return;
+    R.begin(d.str());
+    {
+        cocls::reusable_storage_mtsafe st;
+        int done = 0;
+        {
+            // warm-up: one frame alone
+            cocls::future<int> g;
+            auto p = g.get_promise();
+            mts_coro(st, g, &done).detach();
+            p(1);
+        }
+        {
+            cocls::future<int> g[3];
+            cocls::promise<int> p[3];
+            int n = with_third ? 3 : 2;
+            for (int i = 0; i < n; i++) {
+                p[i] = g[i].get_promise();
+                mts_coro(st, g[i], &done).detach();  // the second and third overlap the first: heap fallback allowed
+            }
+            if (finish_order == 0)
+                for (int i = 0; i < n; i++) p[i](1);
+            else
+                for (int i = n - 1; i >= 0; i--) p[i](1);
+        }
+        uint64_t per_round[2];
+        for (int round = 0; round < 2; round++) {
+            cocls::future<int> g;
+            auto p = g.get_promise();
+            region_begin();
+            mts_coro(st, g, &done).detach();
+            p(1);
+            per_round[round] = region_allocs();
+            R.step();
+        }
+        if (per_round[0] || per_round[1])
+            R.fail("noalloc/mtsafe-storage-after-overlap", "frames created one at a time in a reusable_storage_mtsafe whose block is free allocate (%lu, %lu) after an earlier overlapping use",
+                   (unsigned long)per_round[0], (unsigned long)per_round[1]);
+        if (done != (with_third ? 6 : 5)) R.fail("noalloc/harness", "coroutines completed: %d", done);
+    }
+    R.state(seqx::hash_str(d.str()));
+    R.outcome(0);
+    R.end(true);
+}
+
 // ------------------------------------------------------------------------------------------------ family F9: callback promise in a storage
 // make_promise<T>(fn, storage): the callback future lives in the storage block (the frame-placement path without a coroutine)
 static void make_promise_storage_case(seqx::Runner &R, int outcome) {
@@ -609,7 +673,10 @@ void seqx_run(seqx::Runner &R, const std::string &tier) {
     moved_store_case(R, 0);
     moved_store_case(R, 1);
     for (int out = 0; out < 3; out++)
-        for (size_t init : {(size_t)0, (size_t)32, (size_t)4000}) cbawait_stack_case(R, out, init);
+        for (size_t init : {(size_t)0, (size_t)32, (size_t)4000})
+            for (int big = 0; big < 2; big++) cbawait_stack_case(R, out, init, big != 0);
+    for (int order = 0; order < 2; order++)
+        for (int third = 0; third < 2; third++) mtsafe_overlap_case(R, order, third);
     for (int n = 0; n <= 4; n++)
         for (int how = 0; how < 5; how++)
             sp_case(R, n, how);
